@@ -81,8 +81,15 @@ def check_message(res, v):
     line = reflex.line_of(text, tok[2])
     res.outcome(f'{tok[0]}@{line}:{layout_flags(text, tok[2])}')
     if v.rk == 'reserved':
-        res.count('skipped_reserved_word')
-        return
+        # `for = 1`: a reserved word where a name may stand is its own kind of error (C16). Where a name could not stand either
+        # (`x for`), the text has a plain syntax error at that token and the message owes token and line
+        alt = text[:tok[2]] + 'zzq' + text[tok[2] + len(tok[3]):]
+        va = refparse.parse(alt)
+        name_dead_here = va[0] == 'dead' and va[1] == v.mat
+        if not name_dead_here:
+            res.count('skipped_reserved_word')
+            return
+        res.count('reserved_word_in_non_operand_position')
     if v.rk == 'dead' and v.rpos != tok[2]:
         sig = 'pos:' + e1.context_types(text, v.rpos)
         res.violation(sig, 'the syntax error is raised at a different token than the first one that can not continue the program',
